@@ -518,14 +518,10 @@ class MPSBackendImpl:
         basename = self.autosave_file
         with open(basename.with_suffix(".new"), "wb") as file_handle:
             pickle.dump(self, file_handle)
-        if basename.is_file():
-            os.rename(basename, basename.with_suffix(".bak"))
-
-        os.rename(basename.with_suffix(".new"), basename)
+        # Atomically replaces the previous autosave: at every instant a complete
+        # snapshot (the old or the new one) exists under the advertised name.
+        os.replace(basename.with_suffix(".new"), basename)
         autosave_filesize = os.path.getsize(self.autosave_file) / 1e6
-
-        if basename.with_suffix(".bak").is_file():
-            os.remove(basename.with_suffix(".bak"))
 
         self.last_save_time = time.time()
 
